@@ -4,6 +4,7 @@
    processExpiredEvents, [tadd] the reading used when a new group is opened. *)
 From Coq Require Import List NArith ZArith.
 From Verif Require Import Gated GatedProofs GatedExamples.
+From Verif Require Run_Gated RunGatedSound.
 Import ListNotations.
 Open Scope Z_scope.
 
@@ -60,6 +61,24 @@ Theorem C17_memory_bound : forall E s id flush n rd tadd T,
   exists g, In g (groups (fst (step E s (Proc id flush n rd tadd)))) /\ In e (gevs g) /\ T <= gexp g.
 Proof. exact memory_bound. Qed.
 Print Assumptions C17_memory_bound.
+
+(* ---------- what the check's verdict means ----------
+   The correspondence part of the check evaluates Run_Gated.mismatches / conc_mismatches on the harness' cases with vm_compute and
+   requires [].  That verdict is exactly: every observed history is an execution of the model (result, returned composite,
+   ComposeFrom arguments, payloads handed to the Sender and the VerifGated snapshot of every call are the model's) and satisfies
+   the observation-only oracles; every concurrent case satisfies the declarative concurrent oracle.  (The engine drops the
+   kinds that do not speak about the property at hand; on a tree where the whole list is empty this is the reading.) *)
+Theorem C17_verdict_is_model_execution : forall cs,
+  Run_Gated.mismatches cs = [] <->
+  Forall (fun c => RunGatedSound.accepted (Run_Gated.g_cfg c) s0 (Run_Gated.g_steps c) /\
+                   RunGatedSound.oracles_ok (Run_Gated.g_cfg c) RunGatedSound.ostate0 (Run_Gated.g_steps c)) cs.
+Proof. exact RunGatedSound.mismatches_nil_iff. Qed.
+Print Assumptions C17_verdict_is_model_execution.
+
+Theorem C17_concurrent_verdict_is_oracle : forall cs,
+  Run_Gated.conc_mismatches cs = [] <-> Forall (fun c => RunGatedSound.conc_ok (Run_Gated.cc_obs c)) cs.
+Proof. exact RunGatedSound.conc_mismatches_nil_iff. Qed.
+Print Assumptions C17_concurrent_verdict_is_oracle.
 
 (* three open groups, two of them expired when the next Process arrives; FlushAll / Close succeed with several groups open *)
 Theorem C17_nonvacuous :
